@@ -373,6 +373,27 @@ func init() {
 			return c.ret(TupleV{tok, IfaceV{}})
 		}
 	}
+	Stubs["(encoding/json.Number).Int64"] = func(ex *Exec, c *CallCtx) []*callResult {
+		sub := &CallCtx{St: c.St, Fr: c.Fr, Args: []Value{c.Args[0], term.Const(64, 10), term.Const(64, 64)}, Site: c.Site, Fn: c.Fn, Name: c.Name}
+		return ex.parseIntStub(sub, 0)
+	}
+	Stubs["(encoding/json.Number).Float64"] = func(ex *Exec, c *CallCtx) []*callResult {
+		// only integer syntax is modelled: an exact (wide) integer converted with round-to-nearest-even is what
+		// strconv.ParseFloat returns for a decimal integer
+		s := c.Args[0].(StringV)
+		j := &jsonCtx{ex, c}
+		if len(s.B) == 0 || len(s.B) > 20 {
+			abort("UNSUPPORTED", "json.Number.Float64 of %d bytes", len(s.B))
+		}
+		v := term.Const(70, 0)
+		for _, b := range s.B {
+			if !j.digit(b) {
+				abort("UNSUPPORTED", "json.Number.Float64 of non-integer syntax")
+			}
+			v = term.Add(term.Mul(v, term.Const(70, 10)), term.Zext(term.Sub(b, term.Const(8, '0')), 62))
+		}
+		return c.ret(TupleV{term.FpFromBV(v, 64, false), IfaceV{}})
+	}
 	ExtGlobals["io.EOF"] = func(ex *Exec, st *State) Value { return ex.newError(st, "EOF") }
 	ExtGlobals["io.ErrUnexpectedEOF"] = func(ex *Exec, st *State) Value { return ex.newError(st, "unexpected EOF") }
 	ExtGlobals["strconv.ErrSyntax"] = func(ex *Exec, st *State) Value { return ex.newError(st, "invalid syntax") }
